@@ -372,7 +372,56 @@ class Found(Exception):
         self.detail = detail
 
 
-def hyp_search(shard, prop, strategy, seed, max_examples, shrink=True, max_rounds=4):
+def minimise_lines(src, test, max_steps=300):
+    """Line-level ddmin of a program text. test(candidate) -> True if the failure (same signature) persists.
+    Also tries to drop a compound-statement header and dedent its block."""
+    lines = src.splitlines()
+    steps = [0]
+
+    def ok(cand):
+        steps[0] += 1
+        if not cand:
+            return False
+        try:
+            return bool(test('\n'.join(cand) + '\n'))
+        except Exception:
+            return False
+    n = 2
+    while len(lines) >= 2 and steps[0] < max_steps:
+        chunk = max(1, len(lines) // n)
+        removed = False
+        i = 0
+        while i < len(lines) and steps[0] < max_steps:
+            cand = lines[:i] + lines[i + chunk:]
+            if ok(cand):
+                lines = cand
+                removed = True
+            else:
+                i += chunk
+        if not removed:
+            if chunk == 1:
+                break
+            n = min(len(lines), n * 2)
+    # header removal + dedent
+    changed = True
+    while changed and steps[0] < max_steps:
+        changed = False
+        for i, l in enumerate(lines):
+            if l.rstrip().endswith(':') and not l.lstrip().startswith(('def ', 'class ', 'else', 'elif', 'except', 'finally')):
+                ind = len(l) - len(l.lstrip())
+                j = i + 1
+                while j < len(lines) and (len(lines[j]) - len(lines[j].lstrip()) > ind or not lines[j].strip()):
+                    j += 1
+                block = [x[4:] if x.startswith(' ' * (ind + 4)) else x for x in lines[i + 1:j]]
+                cand = lines[:i] + block + lines[j:]
+                if ok(cand):
+                    lines = cand
+                    changed = True
+                    break
+    return '\n'.join(lines) + '\n'
+
+
+def hyp_search(shard, prop, strategy, seed, max_examples, shrink=True, max_rounds=4, minimise=None, budget_s=None):
     """Run prop(value) over strategy. prop returns None or raises Found.
 
     Collect-then-shrink: after a shrunk violation is recorded its signature is excluded
@@ -381,7 +430,11 @@ def hyp_search(shard, prop, strategy, seed, max_examples, shrink=True, max_round
     """
     from hypothesis import given, seed as hseed
     shard.excluded = getattr(shard, 'excluded', set())
+    t_start = time.time()
     for rnd in range(max_rounds):
+        if budget_s is not None and rnd and time.time() - t_start > budget_s:
+            shard.count('search_rounds_cut_by_time_budget')
+            return
         last = {}
 
         def wrapped(value):
@@ -400,6 +453,11 @@ def hyp_search(shard, prop, strategy, seed, max_examples, shrink=True, max_round
             return
         except Found:
             f = last['f']
+            if minimise is not None:
+                try:
+                    f = minimise(f) or f
+                except Exception:
+                    pass
             shard.violation(f.signature, f.case, f.detail)
             shard.excluded.add(f.signature)
         except Exception as e:
